@@ -254,3 +254,44 @@ func c11SoftHyphensLongestFirst(c *core.Check) {
 	}
 	r.Cond(decreasing || reversed, key, p.Pos(fn.Pos()), "the word is walked from its end", "the prefixes are appended shortest first and not reversed: the first candidate that fits is the shortest, and the word is broken at its first soft hyphen instead of the last one that fits")
 }
+
+// c11AtomicAdvance (R19): justification moves every box of a line by the spacing added before it.  addWordSpacing
+// threads that accumulated advance through the line: it returns the advance after the box.  An atomic inline box
+// (inline-block, image) adds no spacing itself: it is moved by exactly the advance that the function returns for it.
+// The horizontal offset given to Translate in addWordSpacing is a value that flows into the function's result.
+// (Moved by the width of one gap instead, an inline-block after two spaces overlapped the text before it.)
+func c11AtomicAdvance(c *core.Check) {
+	p := c.Prog
+	r := c.Rule("R19", "an atomic inline box is moved by the accumulated advance: in html/layout.addWordSpacing the horizontal offset passed to Translate is a value that flows into the result of the function", 1)
+	fn := p.Fn("html/layout", "addWordSpacing")
+	if fn == nil {
+		r.Anchor("html/layout.addWordSpacing")
+		return
+	}
+	var results []ssa.Value
+	core.Instrs(fn, func(in ssa.Instruction) {
+		if ret, ok := in.(*ssa.Return); ok && len(ret.Results) == 1 {
+			results = append(results, ret.Results[0])
+		}
+	})
+	n := 0
+	core.Instrs(fn, func(in ssa.Instruction) {
+		call, ok := in.(*ssa.Call)
+		if !ok || !call.Call.IsInvoke() || call.Call.Method.Name() != "Translate" || len(call.Call.Args) < 2 {
+			return
+		}
+		n++
+		key := fmt.Sprintf("html/layout.addWordSpacing | Translate #%d", n)
+		dx := call.Call.Args[1]
+		flows := false
+		for _, res := range results {
+			if core.DerivesFrom(res, func(v ssa.Value) bool { return v == dx }) {
+				flows = true
+			}
+		}
+		r.Cond(flows, key, p.Pos(call.Pos()), "the offset is the advance the function returns", "the box is moved by a value that is not the advance returned for it: it is not shifted by the spacing added before it on the line")
+	})
+	if n == 0 {
+		r.Skip("html/layout.addWordSpacing | Translate", p.Pos(fn.Pos()), "addWordSpacing translates no box")
+	}
+}
